@@ -220,56 +220,85 @@ def _loop_source(el):
     return None
 
 
-def _countersig(prog, md, effs):
+def _first_element_conds(prog, md, bb):
+    """what the path conditions at bb say about element 0 of this entry's array (however it is peeked at)"""
     fn, pv = md.fn, md.pv
     V = ("sym", "value")
-    det = {}
-    if len(effs) != 2:
-        return False, {"problem": "expected two pushes (single / multiple), found %d" % len(effs)}
-    single = multi = None
-    for f, e in effs:
-        if e["kind"] != "call" or e["callee"] != codec.VEC_PUSH:
-            return False, {"problem": "not a push"}
-        a = md.sym(e["args"][1])
-        if not (a[0] == "tryok" and is_call(a[1]) and a[1][1] in codec.SIG_FROM):
-            return False, {"problem": "pushed value is not a decoded CoseSignature: %s" % show(a)[:80]}
-        arg = a[1][2][0]
-        arr = ("tryok", None)
-        pvs = path_variants(prog, pv, conditions(fn, pv, e["bb"]))
-        firsts = {}
-        for k, v in pvs.items():
-            ks = md.sym(k)
-            if ks[0] == "deref" and is_call(ks[1], "core::ops::index::Index::index") and ks[1][2][1] == ("const", 0):
-                a0 = ks[1][2][0]
-                a0 = a0[1] if a0[0] == "ref" else a0
-                if a0[0] == "tryok" and is_call(a0[1], codec.TRY_ARRAY) and a0[1][2] == (V,):
-                    firsts["element 0 of the array"] = sorted(v)
-            elif ks[0] == "deref" and ks[1][0] == "field" and ks[1][2] == "0" and ks[1][1][0] == "variant" and ks[1][1][2] == "Some" \
-                    and is_call(ks[1][1][1], SLICE_FIRST):
-                # `match arr.first() { Some(Value::Bytes(_)) => .. }`: the same peek at element 0
-                a0 = ks[1][1][1][2][0]
-                while a0[0] in ("ref", "deref") or is_call(a0, "core::ops::deref::Deref::deref"):
-                    a0 = a0[1] if a0[0] != "call" else a0[2][0]
-                if a0[0] == "tryok" and is_call(a0[1], codec.TRY_ARRAY) and a0[1][2] == (V,):
-                    firsts["element 0 of the array"] = sorted(v)
-            elif any(is_call(s, "core::ops::index::Index::index") for s in subterms(ks)):
-                firsts["other element: " + show(ks)[:60]] = sorted(v)
-        if arg[0] == "aggr" and arg[1] == "ciborium::value::Value" and arg[2] == "Array":
-            inner = arg[3][0][1]
-            if inner[0] == "tryok" and is_call(inner[1], codec.TRY_ARRAY) and inner[1][2] == (V,):
-                single = (e, firsts)
-        else:
-            src = _loop_source(arg)
-            if src and src[0] == "tryok" and is_call(src[1], codec.TRY_ARRAY) and src[1][2] == (V,):
-                multi = (e, firsts)
-    if not single or not multi:
-        return False, {"problem": "single/multiple forms not both recognised"}
-    s_ok = single[1] == {"element 0 of the array": ["Bytes"]}
-    m_ok = multi[1] == {"element 0 of the array": ["Array"]}
-    det["single_when_first_element"] = single[1]
-    det["multiple_when_first_element"] = multi[1]
-    # the peeked element is element 0 of the same array
-    return s_ok and m_ok, det
+    firsts = {}
+    for k, v in path_variants(prog, pv, conditions(fn, pv, bb)).items():
+        ks = md.sym(k)
+        if ks[0] == "deref" and is_call(ks[1], "core::ops::index::Index::index") and ks[1][2][1] == ("const", 0):
+            a0 = ks[1][2][0]
+            a0 = a0[1] if a0[0] == "ref" else a0
+            if a0[0] == "tryok" and is_call(a0[1], codec.TRY_ARRAY) and a0[1][2] == (V,):
+                firsts["element 0 of the array"] = sorted(v)
+        elif ks[0] == "deref" and ks[1][0] == "field" and ks[1][2] == "0" and ks[1][1][0] == "variant" and ks[1][1][2] == "Some" \
+                and is_call(ks[1][1][1], SLICE_FIRST):
+            a0 = ks[1][1][1][2][0]
+            while a0[0] in ("ref", "deref") or is_call(a0, "core::ops::deref::Deref::deref"):
+                a0 = a0[1] if a0[0] != "call" else a0[2][0]
+            if a0[0] == "tryok" and is_call(a0[1], codec.TRY_ARRAY) and a0[1][2] == (V,):
+                firsts["element 0 of the array"] = sorted(v)
+        elif any(is_call(s, "core::ops::index::Index::index") for s in subterms(ks)):
+            firsts["other element: " + show(ks)[:60]] = sorted(v)
+    return firsts
+
+
+def _classify_sig_alternative(md, s):
+    """'single' | 'multiple' | None for one alternative of what the arm stores, as a (symbolised) sequence value:
+    single = [CoseSignature::from(Value::Array(<the entry's array>))?], multiple = one CoseSignature::from(x)? per element of it"""
+    from lib.seq import X
+    from lib.prov import strip_sites
+    V = ("sym", "value")
+    ARR = strip_sites(("tryok", ("call", codec.TRY_ARRAY, (V,))))
+    if s[0] == "opt":
+        s = s[2]
+    if s[0] == "lit" and len(s[1]) == 1:
+        a = md.sym(s[1][0])
+        if a[0] == "tryok" and is_call(a[1]) and a[1][1] in codec.SIG_FROM:
+            arg = a[1][2][0]
+            if arg[0] == "aggr" and arg[1] == "ciborium::value::Value" and arg[2] == "Array" and strip_sites(arg[3][0][1]) == ARR:
+                return "single"
+    elif s[0] == "map" and s[2][0] == "elems" and s[2][2] == 0 and s[2][3] is None and strip_sites(md.sym(s[2][1])) == ARR:
+        F = md.sym(s[1])
+        if F[0] == "tryok" and is_call(F[1]) and F[1][1] in codec.SIG_FROM and F[1][2][0] == X:
+            return "multiple"
+    return None
+
+
+def _countersig(prog, md, effs):
+    """label 7: a single COSE_Signature (element 0 of the entry's array is a bstr) or an array of them (element 0 is an array).
+    Decided on the sequence value of every alternative the arm stores - two pushes, push + loop of pushes, push + extend(collect),
+    or one assignment whose value is chosen by a match - together with what the path conditions say about element 0."""
+    from lib.seq import Seq, normalize, show_seq
+    fn, pv = md.fn, md.pv
+    alts = []      # (sequence, block whose conditions select it)
+    if len(effs) == 1 and effs[0][1]["kind"] == "assign":
+        e = effs[0][1]
+        st = fn.blocks[e["bb"]]["stmts"][e["idx"]]
+        if st["rv"]["k"] != "use":
+            return False, {"problem": "assigned value is not a plain value"}
+        for term, dbb in codec.arms(pv, st["rv"]["op"], e["bb"], e["idx"]):
+            alts.append((normalize(Seq(fn, pv).of_value(term, 0, (dbb, "term"))), dbb))
+    else:
+        for f, e in effs:
+            if e["kind"] != "call":
+                return False, {"problem": "mixture of assignments and calls"}
+            alts.append((Seq(fn, pv).contribution([e], md.next_bb), e["bb"]))
+    det = {"alternatives": [show_seq(s)[:160] for s, _ in alts]}
+    found = {}
+    for s, bb in alts:
+        k = _classify_sig_alternative(md, s)
+        if k is None or k in found:
+            det["problem"] = "single/multiple forms not both recognised exactly once"
+            return False, det
+        found[k] = _first_element_conds(prog, md, bb)
+    if set(found) != {"single", "multiple"}:
+        det["problem"] = "single/multiple forms not both recognised exactly once"
+        return False, det
+    det["single_when_first_element"] = found["single"]
+    det["multiple_when_first_element"] = found["multiple"]
+    return (found["single"] == {"element 0 of the array": ["Bytes"]} and found["multiple"] == {"element 0 of the array": ["Array"]}), det
 
 
 def check_iv_exclusion(ctx, md, rule="R-2"):
